@@ -59,16 +59,25 @@ def run(defs, tag, N, m, maxlen, timeout=1200, per_def_timeout=600):
     ds = [d for d in defs if d.get("form", "step") == "step" and not d.get("via")]
     if not ds:
         return []
-    root = LC.build_crate("sweep_" + tag, [(d, m, 0, True) for d in ds], N, m)
+    # one package, several binaries (src/bin/part_k.rs, CHUNK definitions each): cargo compiles the binaries in parallel
+    CHUNK = 40
+    chunks = [ds[i:i + CHUNK] for i in range(0, len(ds), CHUNK)]
+    root = LC.build_crate("sweep_" + tag, [(d, m, 0, True) for d in chunks[0]], N, m)
+    os.makedirs(os.path.join(root, "src", "bin"), exist_ok=True)
+    os.remove(os.path.join(root, "src", "main.rs"))
+    part_of = {}
+    for k, ch in enumerate(chunks):
+        open(os.path.join(root, "src", "bin", "part_%d.rs" % k), "w").write(G.crate_main([(d, m, 0, True) for d in ch], N, m))
+        for d in ch:
+            part_of[d["name"]] = "part_%d" % k
     env = dict(os.environ, CARGO_NET_OFFLINE="true", CARGO_TARGET_DIR=os.path.join(root, "target_native"))
-    b = C.run_group(["cargo", "build", "--offline", "-q", "--release"], cwd=root, env=env, timeout=timeout)
+    b = C.run_group(["cargo", "build", "--offline", "-q", "--release", "--bins"], cwd=root, env=env, timeout=timeout)
     if b.returncode != 0:
         return [{"def": d, "status": "undecided", "reason": "native build of the sweep crate failed: " + b.stderr[-600:], "crate": root} for d in ds]
-    pkg = re.search(r'name\s*=\s*"([^"]+)"', open(os.path.join(root, "Cargo.toml")).read()).group(1)
-    binary = os.path.join(root, "target_native", "release", pkg)
 
     def one(d):
         al = alphabet(d)
+        binary = os.path.join(root, "target_native", "release", part_of[d["name"]])
         args = [binary, "sweep", d["name"], str(d.get("sweep_maxlen", maxlen))] + [str(ord(ch)) for ch in al]
         try:
             p = C.run_group(args, timeout=per_def_timeout)
